@@ -650,6 +650,13 @@ pub(crate) const POSTTRANS_TAGS: ScriptletIndexTags = (
     IndexTag::RPMTAG_POSTTRANSPROG,
 );
 
+/// Index tag values for the %verifyscript scriptlet,
+pub(crate) const VERIFYSCRIPT_TAGS: ScriptletIndexTags = (
+    IndexTag::RPMTAG_VERIFYSCRIPT,
+    IndexTag::RPMTAG_VERIFYSCRIPTFLAGS,
+    IndexTag::RPMTAG_VERIFYSCRIPTPROG,
+);
+
 /// Index tag values for the %preuntrans scriptlet,
 pub(crate) const PREUNTRANS_TAGS: ScriptletIndexTags = (
     IndexTag::RPMTAG_PREUNTRANS,
